@@ -36,7 +36,24 @@ Format::QuoteUrlEncodeUsername(const char *name)
     if (name[0] == '\0')
         return nullptr;
 
-    return QuoteMimeBlob(name);
+    char *blob = QuoteMimeBlob(name);
+    if (!strchr(blob, ' '))
+        return blob;
+
+    // Unlike mime header blobs, user names are logged as a bare field without
+    // surrounding brackets: %-encode the SP that QuoteMimeBlob() leaves alone.
+    char *buf = static_cast<char *>(xcalloc(1, (strlen(blob) * 3) + 1));
+    char *cursor = buf;
+    for (const char *s = blob; *s; ++s) {
+        if (*s == ' ') {
+            *cursor++ = '%';
+            *cursor++ = '2';
+            *cursor++ = '0';
+        } else
+            *cursor++ = *s;
+    }
+    xfree(blob);
+    return buf;
 }
 
 char *
